@@ -21,10 +21,13 @@ BaseMap(sources) ==
 \* unused slots (empty name, or zero tiles) in front of, between and behind used ones
 MapA == BaseMap(<< Src(<<119,101,108,108,48,48,48,49>>, 200), Src(<<>>, 0), Src(<<97>>, 0) >>)
 MapB == BaseMap(<< Src(<<>>, 0), Src(<<119,49>>, 9), Src(<<119,50>>, 1), Src(<<120>>, 0), Src(<<119,51>>, 2), Src(<<>>, 0), Src(<<119,52>>, 7) >>)
-Init == ((m = MapA /\ start = "A") \/ (m = MapB /\ start = "B")) /\ hist = <<>>
+\* a wide map (512 x 1): coordinates beyond the first 256 columns
+MapC == [BaseMap(<< Src(<<119,49>>, 9) >>) EXCEPT !.lg = 9, !.h = 1, !.tiles = [i \in 1..512 |-> TilePool[((i * 7 + (i \div 32)) % Len(TilePool)) + 1]]]
+StartMap(s) == IF s = "A" THEN MapA ELSE IF s = "B" THEN MapB ELSE MapC
+Init == start \in {"A", "B", "C"} /\ m = StartMap(start) /\ hist = <<>>
 \* ---- actions ------------------------------------------------------------------------------------------------------
 Log(e, refused) == hist' = Append(hist, [e |-> e, refused |-> refused, after |-> Encode(m')])
-Coords == { <<0, 0>>, <<33, 1>>, <<63, 1>>, <<32, 0>> }
+Coords == IF start = "C" THEN { <<44, 0>>, <<300, 0>>, <<511, 0>>, <<256, 0>> } ELSE { <<0, 0>>, <<33, 1>>, <<63, 1>>, <<32, 0>> }
 SetCell(c, x, y) == IF c <= 31 THEN m' = SetCellType(m, c, x, y) /\ Log([k |-> "cell", c |-> c, x |-> x, y |-> y], FALSE)
                     ELSE m' = m /\ Log([k |-> "cell", c |-> c, x |-> x, y |-> y], TRUE)
 SetLava(v, x, y) == m' = SetLavaPossible(m, v, x, y) /\ Log([k |-> "lava", v |-> v, x |-> x, y |-> y], FALSE)
@@ -32,7 +35,7 @@ SetVer(v) == m' = SetVersionTag(m, v) /\ Log([k |-> "ver", v |-> v], FALSE)
 TrimSources == m' = Trim(m) /\ Log([k |-> "trim"], FALSE)
 Next == /\ Len(hist) < Depth /\ UNCHANGED start
         /\ \/ \E xy \in Coords : \E c \in {0, 21, 31, 32, 9999} : SetCell(c, xy[1], xy[2])
-           \/ \E xy \in {<<0, 0>>, <<32, 1>>} : \E v \in {0, 1} : SetLava(v, xy[1], xy[2])
+           \/ \E xy \in Coords : \E v \in {0, 1} : SetLava(v, xy[1], xy[2])          \* the tiles under Coords carry every pattern of the pool (lava bit set and clear)
            \/ \E v \in {4112, 4200} : SetVer(v)
            \/ TrimSources
 Spec == Init /\ [][Next]_vars
@@ -62,6 +65,6 @@ TrimFrame == [][ (hist' # hist /\ Last.e.k = "trim") =>
                    /\ IsSubseq(m'.sources, m.sources) ]_vars
 Export == Len(hist) = Depth =>
   PrintT("S|" \o ToJson([id |-> <<start, [i \in 1..Len(hist) |-> hist[i].e.k]>>,
-                         steps |-> << [op |-> "map_edits", input |-> Encode(IF start = "A" THEN MapA ELSE MapB), edits |-> [i \in 1..Len(hist) |-> hist[i].e],
+                         steps |-> << [op |-> "map_edits", input |-> Encode(StartMap(start)), edits |-> [i \in 1..Len(hist) |-> hist[i].e],
                                        refused |-> [i \in 1..Len(hist) |-> hist[i].refused], after |-> [i \in 1..Len(hist) |-> hist[i].after]] >>]))
 ====
